@@ -19,6 +19,7 @@ import (
 	"verif/harness/checks/c15"
 	"verif/harness/checks/c16"
 	"verif/harness/checks/c17"
+	"verif/harness/checks/c18"
 	"verif/harness/checks/c19"
 	"verif/harness/vf"
 )
@@ -40,5 +41,8 @@ var checks = map[string]func(*vf.Check){
 	"C15": c15.Run,
 	"C16": c16.Run,
 	"C17": c17.Run,
+	"C18": c18.Run,
 	"C19": c19.Run,
 }
+
+func transcript(path string) error { return c18.Transcript(path) }
